@@ -499,6 +499,8 @@ class FitBase(FileIOMixin, object):
         self._nexus.get(self._MODEL_NAME).mark_for_update()
         for _error_name in self._BASIC_ERROR_NAMES:
             self._nexus.get(_error_name).mark_for_update()
+        # a pointwise cost function selected by an earlier do_fit need not be valid for the uncertainties of the new data
+        self._fitter.parameter_to_minimize = self._cost_function.name
 
     @property
     def data_error(self):
